@@ -713,7 +713,17 @@ def park_here():
         with ex.cv:
             if ex.closed:
                 return
-            ex.parked[fid] = gate
+            if fid not in ex.submitted:
+                foreign = True
+            else:
+                foreign = False
+                ex.parked[fid] = gate
+        if foreign:
+            # the body was handed to a pool this execution did not create (e.g. the event loop's default executor): the
+            # controller of this execution never sees that future - let the execution run free instead of parking for ever
+            ex.bypass("node body runs on a pool the execution did not create")
+            return
+        with ex.cv:
             ex.cv.notify_all()
         if not gate.wait(Settings.valve_s):
             ex.bypass("valve: parked probe never released")
